@@ -2,6 +2,7 @@ package tasksim
 
 import (
 	"context"
+	"encoding/json"
 	"errors"
 	"fmt"
 	"io"
@@ -32,6 +33,18 @@ type WorldSpec struct {
 	// Real: the tasks keep the jrpc2.Client built by loadTasks and talk HTTP to a
 	// simnode serving the same chain versions (instead of the scripted Source)
 	Real bool
+	// DBRows: integrations that are NOT in the configuration file but saved in
+	// shovel.integrations (as the dashboard does), possibly several rows with one name
+	DBRows []DBRow
+}
+
+// DBRow: integration Name is stored Copies times in shovel.integrations; with
+// FirstDiffers the first row carries another address filter than the others
+// (the last row is the declaration the case expects to run).
+type DBRow struct {
+	Name         string
+	Copies       int
+	FirstDiffers bool
 }
 
 // TaskH is one running task with its ids.
@@ -173,6 +186,11 @@ func (w *World) connect(migrate bool) error {
 			}
 		}
 	}
+	if migrate {
+		if err := w.moveToDatabase(); err != nil {
+			return err
+		}
+	}
 	ctx := wctx.WithVersion(w.ctx, "verif")
 	tasks, err := shovel.VerifTaskLoad(ctx, w.Pool, w.Conf)
 	if err != nil {
@@ -186,6 +204,27 @@ func (w *World) connect(migrate bool) error {
 		}
 		return a.SrcName < b.SrcName
 	})
+	// no (source, integration) pair may be served by two tasks
+	seenPair := map[string]int{}
+	for _, t := range tasks {
+		info := t.VerifTaskInfo()
+		seenPair[info.SrcName+"/"+info.IGName]++
+	}
+	for k, n := range seenPair {
+		if n > 1 {
+			msg := fmt.Sprintf("loadTasks built %d tasks for the pair %s", n, k)
+			dup := false
+			for _, a := range w.ConfigAnomalies {
+				if a == msg {
+					dup = true
+				}
+			}
+			if !dup {
+				w.ConfigAnomalies = append(w.ConfigAnomalies, msg)
+			}
+		}
+	}
+	sort.Strings(w.ConfigAnomalies)
 	snap := w.PG.Snapshot()
 	w.Tasks = nil
 	for i, t := range tasks {
@@ -226,6 +265,62 @@ func (w *World) connect(migrate bool) error {
 		if !known {
 			w.All = append(w.All, h)
 		}
+	}
+	return nil
+}
+
+// moveToDatabase takes the integrations named in Spec.DBRows out of the file
+// configuration and stores them (after ValidateFix, as JSON) in
+// shovel.integrations, the way the dashboard saves them.
+func (w *World) moveToDatabase() error {
+	for _, row := range w.Spec.DBRows {
+		var found *config.Integration
+		var keep []config.Integration
+		for i := range w.Conf.Integrations {
+			if w.Conf.Integrations[i].Name == row.Name {
+				found = &w.Conf.Integrations[i]
+			} else {
+				keep = append(keep, w.Conf.Integrations[i])
+			}
+		}
+		if found == nil {
+			return fmt.Errorf("DBRows: no integration %q", row.Name)
+		}
+		last, err := json.Marshal(found)
+		if err != nil {
+			return err
+		}
+		first := last
+		if row.FirstDiffers {
+			var specs []IGSpec
+			for _, ig := range w.Spec.IGs {
+				if ig.Name == row.Name {
+					ig.AddrFlt = !ig.AddrFlt
+				}
+				specs = append(specs, ig)
+			}
+			alt, _, err := BuildConfig(w.Spec.Srcs, specs)
+			if err != nil {
+				return err
+			}
+			for i := range alt.Integrations {
+				if alt.Integrations[i].Name == row.Name {
+					if first, err = json.Marshal(alt.Integrations[i]); err != nil {
+						return err
+					}
+				}
+			}
+		}
+		for c := 0; c < row.Copies; c++ {
+			conf := last
+			if c == 0 && row.Copies > 1 {
+				conf = first
+			}
+			if _, err := w.Pool.Exec(w.ctx, `insert into shovel.integrations(name, conf) values ($1, $2)`, row.Name, conf); err != nil {
+				return fmt.Errorf("saving integration %q: %w", row.Name, err)
+			}
+		}
+		w.Conf.Integrations = keep
 	}
 	return nil
 }
